@@ -1,7 +1,7 @@
 (* C03 — property theorems about the budgeted flatten model.  Each is closed by `exact <lemma>` and followed by
    Print Assumptions; the check re-compiles this file on every run.  (Dispatch / size bounds: MagicsProperties.v) *)
 From Coq Require Import List NArith Arith Bool.
-From MW Require Import Common.Str C03.Model C03.Proofs C03.ProofsLazy C03.Cost.
+From MW Require Import Common.Str C03.Model C03.Proofs C03.ProofsLazy C03.ProofsMono C03.Cost.
 Import ListNotations.
 
 (* For EVERY universe (`tpl` is an arbitrary function from names to parsed templates: self-inclusion, mutual
@@ -123,6 +123,27 @@ Example C03_cost_polynomial_refuted :
   end.
 Proof. exact example_doubling_chain. Qed.
 Print Assumptions C03_cost_polynomial_refuted.
+
+(* THE LIMIT IS INVISIBLE TO WHAT DOES NOT HIT IT (full model, every node kind, every universe, every magic strategy): below
+   the top level (recursion_count >= 2) a result other than TemplateRecursion - output, or nothing after a swallowed
+   MemoryLimitError - is the result for EVERY larger recursion limit.  So the only thing the limit can change is what
+   the limit is there for, and raising it never turns output into different output. *)
+Theorem C03_limit_invisible_unless_hit :
+  forall tpl is_magic magic_prog default_names b k c n e r,
+  (2 <= c)%nat ->
+  flatten tpl is_magic magic_prog default_names b c n e = r -> r <> Err XRec ->
+  flatten tpl is_magic magic_prog default_names (k + b) c n e = r.
+Proof. exact flatten_limit_invisible. Qed.
+Print Assumptions C03_limit_invisible_unless_hit.
+
+(* every component of the evaluator is monotone in its flatten parameter for  r [= r' := (r = r' \/ r = Err XRec) *)
+Theorem C03_node_body_monotone :
+  forall tpl is_magic magic_prog default_names (fl fl' : flat), fle fl fl' ->
+  forall (flb flb' : flat), fle flb flb' ->
+  forall n e, rle (node_body tpl is_magic magic_prog default_names fl flb n e)
+                  (node_body tpl is_magic magic_prog default_names fl' flb' n e).
+Proof. exact node_body_mono. Qed.
+Print Assumptions C03_node_body_monotone.
 
 (* What the discipline buys, on the abstract walk of C03/Cost.v (items = text leaves or calls into an arbitrary, possibly
    cyclic universe `body`; a call uses one unit of the nesting budget b; the first failing child ends its parent): a run that
